@@ -12,7 +12,8 @@
                      tests; "will retry after interval" is logged
      WaitDone        time.After(delay) fires
      StopInWait(t)   stopCh closes during the wait -> shutdown-classified error
-     CancelInWait(t) ctx.Done() during the wait
+     CancelInWait(t) ctx.Done() during the wait (cancel())
+     ExpireInWait    ctx.Done() because the wait ends exactly at the request's deadline
    Integer time.  The observables of RetryObs are updated alongside. *)
 EXTENDS RetryObs
 
@@ -26,7 +27,6 @@ VARIABLES now, phase, curI, req, pend, stopping, cancelled
 implVars == <<now, phase, curI, req, pend, stopping, cancelled>>
 vars == <<obsVars, implVars>>
 
-NoPend == [logged |-> FALSE, d |-> -1, tlog |-> -1]
 
 Init == /\ \E c \in Configs : ObsInit(c, 0)
         /\ now = 0 /\ phase = "send" /\ curI = 0 /\ req = Items /\ pend = NoPend
@@ -36,14 +36,6 @@ Init == /\ \E c \in Configs : ObsInit(c, 0)
 SubsetOf(sub, s) == LET mx == CHOOSE x \in s : \A y \in s : y <= x
                         mn == CHOOSE x \in s : \A y \in s : y >= x
                     IN IF sub = "keep_max" THEN {mx} ELSE s \ {mn}
-
-\* close the decision record of the previous failed attempt, if any
-CloseDec(next, t) ==
-  IF Len(att) > 0 /\ Len(dec) < Len(att) /\ att[Len(att)].kind # "ok"
-    THEN Append(dec, [logged |-> pend.logged, d |-> pend.d, tlog |-> pend.tlog,
-                      nowLo |-> att[Len(att)].t1, nowHi |-> IF pend.logged THEN pend.tlog ELSE t,
-                      next |-> next, tnext |-> t])
-    ELSE dec
 
 Attempt(o, stopDuring) ==
   /\ phase = "send" /\ Len(att) < MaxAttempts
@@ -55,7 +47,7 @@ Attempt(o, stopDuring) ==
          rec == [items |-> req, t0 |-> now, t1 |-> t1, kind |-> o.kind,
                  thr |-> IF o.kind = "throttle" THEN o.thr ELSE 0,
                  rem |-> IF o.kind = "partial" THEN SubsetOf(o.sub, req) ELSE {}]
-     IN /\ dec' = CloseDec("attempt", now)
+     IN /\ dec' = CloseDec(pend, "attempt", now)
         /\ att' = Append(att, rec)
         /\ now' = t1
         /\ IF o.kind = "ok"
@@ -69,7 +61,7 @@ Attempt(o, stopDuring) ==
 Last == att[Len(att)]
 
 Finish(cls) == /\ phase' = "done" /\ res' = [cls |-> cls, t |-> now]
-               /\ dec' = CloseDec("result", now)
+               /\ dec' = CloseDec(pend, "result", now)
 
 \* retry disabled: the failure goes straight back to the caller
 GiveUpPlain ==
@@ -112,7 +104,7 @@ StopInWait(t) ==
   /\ stopping' = TRUE
   /\ stp' = IF stp.t0 < 0 THEN [t0 |-> t, t1 |-> t] ELSE stp
   /\ phase' = "done" /\ res' = [cls |-> "shutdown", t |-> t]
-  /\ dec' = CloseDec("result", t)
+  /\ dec' = CloseDec(pend, "result", t)
   /\ UNCHANGED <<cfg, tc, att, cnl, late, curI, req, pend, cancelled>>
 
 CancelInWait(t) ==
@@ -122,15 +114,24 @@ CancelInWait(t) ==
   /\ cancelled' = TRUE
   /\ cnl' = [t0 |-> t, t1 |-> t]
   /\ phase' = "done" /\ res' = [cls |-> "error", t |-> t]
-  /\ dec' = CloseDec("result", t)
+  /\ dec' = CloseDec(pend, "result", t)
   /\ UNCHANGED <<cfg, tc, att, stp, late, curI, req, pend, stopping>>
+
+\* the wait ends exactly at the request's deadline: ctx.Done() and the timer are both ready, either wins
+ExpireInWait ==
+  /\ phase = "wait" /\ ~stopping /\ ~cancelled
+  /\ cfg.deadline # NoDeadline /\ pend.tlog + pend.d = cfg.deadline
+  /\ now' = cfg.deadline
+  /\ phase' = "done" /\ res' = [cls |-> "error", t |-> cfg.deadline]
+  /\ dec' = CloseDec(pend, "result", cfg.deadline)
+  /\ UNCHANGED <<cfg, tc, att, stp, cnl, late, curI, req, pend, stopping, cancelled>>
 
 DoAttempt == \E o \in Outcomes, s \in BOOLEAN : Attempt(o, s)
 DoDecide == \E b \in 0..(4 * cfg.maxi) : Decide(b)
 DoStop == \E t \in 0..(now + 4 * cfg.maxi) : StopInWait(t)
 DoCancel == \E t \in 0..(now + 4 * cfg.maxi) : CancelInWait(t)
 
-Next == DoAttempt \/ GiveUpPlain \/ DoDecide \/ WaitDone \/ DoStop \/ DoCancel
+Next == DoAttempt \/ GiveUpPlain \/ DoDecide \/ WaitDone \/ ExpireInWait \/ DoStop \/ DoCancel
 Spec == Init /\ [][Next]_vars
 
 \* nothing moves once Send has returned
